@@ -8,9 +8,14 @@ open Nima.C17
 #print axioms cwd_and_spelling_independent
 #print axioms cwd_independent_absolute
 #print axioms result_is_function_of_located_file
+#print axioms home_irrelevant_without_home_literals
 #print axioms nonpath_argument_type_error
 #print axioms angle_path_value_error
 #print axioms missing_file_os_error
 #print axioms hop_reads_the_lexical_target
-#print axioms cex_home
-#print axioms lookup_partial
+#print axioms home_hop_reads_the_lexical_target
+#print axioms home_literal_independent_of_importing_file
+#print axioms home_literal_resolved
+#print axioms home_literal_in_home_directory
+#print axioms full_holds
+#print axioms home_literal_reads_home
